@@ -451,5 +451,92 @@ def Relay.run (r : Relay α) : List (Ev α) → Relay α × List (Side × Op α 
     let y := Relay.run x.1 es
     (y.1, (e.side, e.op, x.2) :: y.2)
 
+
+/-! ### The wire towards one endpoint: several writers, one Framer
+
+  Three goroutines write to the Framer of a destination (relay.go): the writer goroutine of the relay
+  towards it sends the queued elements (`QFrame.send`: a header block is HEADERS / PUSH_PROMISE
+  followed by its CONTINUATION frames), the reader goroutine of the same relay writes SETTINGS,
+  SETTINGS ACK, PING and GOAWAY while it processes the frame, and the reader goroutine of the peer
+  relay writes the WINDOW_UPDATE frames for DATA coming the other way.  `destMu` is held per ELEMENT
+  (`relayFrames`: `Lock; f.send(dest); Unlock`; every direct write is one frame under the lock), so
+  what reaches the wire is a merge of the writers' element sequences that never splits an element.
+  The order in which the lock is granted is the scheduler's: an explicit parameter (`mergeBy`). -/
+
+/-- RFC 7540 §6.10, one frame: `blk = some s` — a header block is open on stream `s` (HEADERS,
+    PUSH_PROMISE or CONTINUATION without END_HEADERS came last); the result is the state after the
+    frame, `none` when the frame may not come here -/
+def wireStep (blk : Option Nat) (f : Frame α) : Option (Option Nat) :=
+  match blk, f with
+  | some s, .continuation s' eh _ => if s' = s then some (if eh then none else some s) else none
+  | some _, _ => none
+  | none, .continuation _ _ _ => none
+  | none, .headers s _ eh _ _ => some (if eh then none else some s)
+  | none, .pushPromise s _ eh _ => some (if eh then none else some s)
+  | none, _ => some none
+
+def wireScan : Option Nat → List (Frame α) → Option (Option Nat)
+  | blk, [] => some blk
+  | blk, f :: fs =>
+    match wireStep blk f with
+    | none => none
+    | some blk' => wireScan blk' fs
+
+/-- §6.10 holds of a sequence of frames as they arrive (a block may still be open at its end) -/
+def wireOk (fs : List (Frame α)) : Bool := (wireScan none fs).isSome
+
+/-- index of the first frame that violates §6.10 -/
+def wireFirstBad : Option Nat → Nat → List (Frame α) → Option Nat
+  | _, _, [] => none
+  | blk, i, f :: fs =>
+    match wireStep blk f with
+    | none => some i
+    | some blk' => wireFirstBad blk' (i + 1) fs
+
+/-- an element is whole: it may start when no block is open and leaves none open -/
+def wholeElem (e : List (Frame α)) : Bool := wireScan none e == some none
+
+/-- a frame that is an element of its own -/
+def Frame.single : Frame α → Bool
+  | .headers _ _ eh _ _ => eh
+  | .pushPromise _ _ eh _ => eh
+  | .continuation _ _ _ => false
+  | _ => true
+
+/-- what one writer puts on the wire: its elements, each written under one acquisition of the lock -/
+abbrev Producer (α : Type) := List (List (Frame α))
+
+/-- the head element of producer `i` is written -/
+def popAt : List (Producer α) → Nat → Option (List (Frame α) × List (Producer α))
+  | [], _ => none
+  | p :: ps, 0 =>
+    match p with
+    | [] => none
+    | e :: es => some (e, es :: ps)
+  | p :: ps, i + 1 =>
+    match popAt ps i with
+    | none => none
+    | some (e, ps') => some (e, p :: ps')
+
+/-- the wire when the lock is granted to the producers in the order `sched` (a producer that has
+    nothing left to write is passed over) -/
+def mergeBy : List Nat → List (Producer α) → List (Frame α)
+  | [], _ => []
+  | i :: sched, ps =>
+    match popAt ps i with
+    | none => mergeBy sched ps
+    | some (e, ps') => e ++ mergeBy sched ps'
+
+/-- the elements written under `sched`, in order -/
+def mergeElems : List Nat → List (Producer α) → List (List (Frame α))
+  | [], _ => []
+  | i :: sched, ps =>
+    match popAt ps i with
+    | none => mergeElems sched ps
+    | some (e, ps') => e :: mergeElems sched ps'
+
+/-- locking per frame instead of per element: every frame becomes an element of its own -/
+def perFrame (p : Producer α) : Producer α := p.flatten.map fun f => [f]
+
 end H2
 end FwdVerif
